@@ -213,6 +213,12 @@ impl<M: Math, A: MassMatrixAdaptStrategy<M>> AdaptStrategy<M> for GlobalStrategy
                 let position = math.box_array(state.point().position());
                 self.step_size
                     .init(math, options, hamiltonian, &position, rng)?;
+                if is_last {
+                    // The search can fall back to the initial step size without
+                    // resetting the adaptation. Sampling has to start with the
+                    // step size that is reported as the final one.
+                    self.step_size.update_stepsize(rng, hamiltonian, true);
+                }
             } else {
                 self.step_size.update_stepsize(rng, hamiltonian, is_last)
             }
